@@ -115,6 +115,11 @@ def run(chk):
     d3_rmap(chk, repo)
     d4_refusals(chk, repo)
     d5_relabel(chk, repo)
+    chk.rule("C05.D6", "exactness for degree <= 2 on meshes with at least three cells rests on the 1-d derivative: its stencils, "
+                       "edge orders and run-length thresholds are those of C04.D1/D2 (same rule instances)")
+    from . import c04
+    c04.d1_stencils(chk, repo)
+    c04.d2_thresholds(chk, repo)
     chk.assume("polynomial exactness and the vector identities are consequences of C04 plus linear algebra and are numeric; "
                "commutation with quarter turns is not decided")
     chk.trust("`a << b` on fields stacks components in operand order (C03)")
